@@ -642,7 +642,13 @@ func newUpConn(c group.Client, id string, label string, offer string) (*rtpUpCon
 		return nil, err
 	}
 
-	api, err := c.Group().API()
+	// the client may have left (or have been kicked) in the meantime
+	g := c.Group()
+	if g == nil {
+		return nil, errors.New("client is not in a group")
+	}
+
+	api, err := g.API()
 	if err != nil {
 		return nil, err
 	}
@@ -688,10 +694,10 @@ func newUpConn(c group.Client, id string, label string, offer string) (*rtpUpCon
 
 		up.mu.Unlock()
 
-		pushConn(up, c.Group(), c.Group().GetClients(c))
+		pushConn(up, g, g.GetClients(c))
 	})
 
-	pushConn(up, c.Group(), c.Group().GetClients(c))
+	pushConn(up, g, g.GetClients(c))
 	go rtcpUpSender(up)
 
 	return up, nil
